@@ -1249,6 +1249,14 @@ class Run:
             if 0 <= n <= 0x10FFFF and not (0xD800 <= n <= 0xDFFF):
                 return ("ctor", "Some", (("ch", chr(n)),))
             return ("ctor", "None", ())
+        if last in ("replace", "take") and len(args) in (1, 2) and (p.split("::")[0] in ("mem", "std", "core", last)) and self.cfg.generic_loops:
+            # mem::replace / mem::take write the place they are given: an effect, and the old content as the value
+            place = self.place_of(e["args"][0], env) if e["args"][0].get("k") in ("Ref", "Unary", "MethodCall", "Field", "Path") else showv(args[0])
+            if last == "take" or showv(args[1]) in ("new()", "default()"):
+                self.act("take " + place)
+                return ("unk", "take(%s)" % place)
+            self.act("replace " + place, [self.argv(args[1])])
+            return ("unk", "replace(%s,%s)" % (place, showv(args[1])))
         if last == "replace" and len(args) == 2 and showv(args[1]) in ("new()", "default()"):
             # mem::replace(x, T::new() / Default::default()) is mem::take(x)
             return ("unk", "take(%s)" % showv(args[0]))
